@@ -14,8 +14,9 @@ import (
 )
 
 type c19Cond struct {
-	id    string
-	names []string // object names the statements are instantiated with
+	id        string
+	names     []string // object names the statements are instantiated with
+	shortWait bool     // the condition makes csvq wait for a lock: the wait time-out is 50 ms
 	// setup prepares dir (fresh, empty) and returns the repository to use and a cleanup
 	setup func(dir string) (repo string, cleanup func())
 }
@@ -57,6 +58,20 @@ var c19Conds = []c19Cond{
 	}},
 	{id: "path-component-is-a-file", names: []string{"f.csv/t", "f.csv/"}, setup: func(dir string) (string, func()) {
 		os.WriteFile(filepath.Join(dir, "f.csv"), []byte("c1\n1\n"), 0644)
+		return dir, nil
+	}},
+	{id: "stale-lock-files", shortWait: true, names: []string{"t"}, setup: func(dir string) (string, func()) {
+		for n, b := range map[string]string{"t.csv": "c1\n1\n", "t.json": `[{"c1":1}]`, "t.jsonl": "{\"c1\":1}\n", "t.txt": "c1\n1 \n", "t.sql": "SELECT 1;"} {
+			os.WriteFile(filepath.Join(dir, n), []byte(b), 0644)
+			os.WriteFile(filepath.Join(dir, "."+n+".lock"), nil, 0644)
+		}
+		return dir, nil
+	}},
+	{id: "stale-read-lock-files", shortWait: true, names: []string{"t"}, setup: func(dir string) (string, func()) {
+		for n, b := range map[string]string{"t.csv": "c1\n1\n", "t.json": `[{"c1":1}]`, "t.jsonl": "{\"c1\":1}\n", "t.txt": "c1\n1 \n"} {
+			os.WriteFile(filepath.Join(dir, n), []byte(b), 0644)
+			os.WriteFile(filepath.Join(dir, "."+n+".abcdefghijkl.rlock"), nil, 0644)
+		}
 		return dir, nil
 	}},
 	{id: "name-too-long", names: []string{strings.Repeat("n", 300)}, setup: func(dir string) (string, func()) { return dir, nil }},
@@ -167,6 +182,9 @@ func (r *c19Runner) execFS(cs *c19Case) {
 	repo, cleanup := cond.setup(dir)
 	r.newEnv()
 	r.env.Tx.Flags.Repository = repo
+	if cond.shortWait {
+		r.env.Tx.UpdateWaitTimeout(0.05, 5*time.Millisecond)
+	}
 	defer func() {
 		r.closeEnv()
 		if cleanup != nil {
